@@ -105,6 +105,78 @@ def merge_tie():
                                "first_diff": {"impl": real, "model": model}})
 
 
+# ------------------------------------------------------------------------------------- 2b. enum rule tie
+def enum_tie(ranges, origin):
+    """underlying type of `enum { A = least, B = greatest }`: freshly built c2m and gcc (sizeof, _Alignof,
+    signedness) against c2mEnumBase / gccEnumBase; c2m vs gcc is the property (enum_base_meets_gcc)"""
+    src = ["#include <stdio.h>\n"]
+    for i, (mn, mx) in enumerate(ranges):
+        src.append(f"enum t{i} {{ T{i}A = {G.c_int(mn)}, T{i}B = {G.c_int(mx)} }};\n")
+    src.append("int main(void) {\n")
+    for i in range(len(ranges)):
+        src.append(f"  printf(\"N {i} %d %d %d\\n\", (int) sizeof(enum t{i}), (int) _Alignof(enum t{i}), (enum t{i}) -1 < 0);\n")
+    src.append("  return 0;\n}\n")
+    (r2, o2, e2), (rg, og, eg) = compile_run_both("".join(src), "enum")
+    if r2 != 0 and len(ranges) > 1:
+        # c2m rejects one of the declarations: evaluate every range on its own
+        st = {"ranges": 0, "c2m_eq_gcc": 0, "model_c2m_mismatch": 0, "model_gcc_mismatch": 0, "one_by_one": True}
+        for rg1 in ranges:
+            s1 = enum_tie([rg1], origin)
+            for k in ("ranges", "c2m_eq_gcc", "model_c2m_mismatch", "model_gcc_mismatch"):
+                st[k] += s1[k]
+        return st
+
+    def parse(out):
+        d = {}
+        for ln in out.split("\n"):
+            f = ln.split()
+            if len(f) == 5 and f[0] == "N":
+                d[int(f[1])] = (int(f[2]), int(f[3]), int(f[4]))
+        return d
+    pc, pg = parse(o2), parse(og)
+    lines = drv([f"enum {mn} {mx}" for mn, mx in ranges])
+    SIGNED = {"int": 1, "long": 1, "llong": 1, "uint": 0, "ulong": 0, "ullong": 0}
+    st = {"ranges": len(ranges), "c2m_eq_gcc": 0, "model_c2m_mismatch": 0, "model_gcc_mismatch": 0}
+    for i, (mn, mx) in enumerate(ranges):
+        parts = [x.split() for x in lines[i].split("|")]
+        try:
+            mc = (int(parts[0][3]), int(parts[0][3]), SIGNED[parts[0][2]])
+            mg = (int(parts[1][2]), int(parts[1][2]), SIGNED[parts[1][1]])
+        except (IndexError, ValueError, KeyError):
+            ck.broken_ties.append({"kind": "driver", "name": "mirdrv_c08 enum", "first_diff": {"line": lines[i]}})
+            continue
+        c, g = pc.get(i), pg.get(i)
+        if g != mg or G.enum_size(mn, mx) != mg[0]:
+            st["model_gcc_mismatch"] += 1
+            ck.broken_ties.append({"kind": "correspondence", "name": "gccEnumBase vs gcc",
+                                   "first_diff": {"range": [mn, mx], "gcc": g, "model": mg}})
+        if c == g:
+            st["c2m_eq_gcc"] += 1
+            if c != mc:
+                st["model_c2m_mismatch"] += 1
+                ck.broken_ties.append({"kind": "correspondence", "name": "c2mEnumBase vs c2m (c2m agrees with gcc)",
+                                       "first_diff": {"range": [mn, mx], "c2m": c, "model": mc}})
+            continue
+        if c is None:
+            sig = ("C08:enum-negative-and-llong-max-rejected" if mn < 0 and mx == 2 ** 63 - 1 and "not represented by an int" in e2
+                   else "C08:enum-rejected-by-c2m")
+        elif c[:2] != g[:2]:
+            sig = "C08:enum-underlying-size" + ("+model-says-equal" if mc[:2] == mg[:2] else "")
+        elif g[0] == 8 and mn == 0:
+            sig = "C08:enum64-without-negative-enumerator-is-signed"
+        else:
+            sig = "C08:enum-underlying-signedness"
+        ck.violation({"stage": "tie", "theorem_or_correspondence": "enum_base_meets_gcc: c2m vs gcc",
+                      "input": {"kind": "enum", "least": mn, "greatest": mx, "origin": origin,
+                                "c_source": f"enum e {{ A = {G.c_int(mn)}, B = {G.c_int(mx)} }};  /* sizeof, _Alignof, (enum e) -1 < 0 */"},
+                      "model_output": {"c2mEnumBase": lines[i].split("|")[0].strip(), "gccEnumBase": lines[i].split("|")[1].strip()},
+                      "impl_output": {"c2m [size, align, signed]": c, "gcc": g, "c2m_rc": r2, "c2m_err": e2[-300:] if r2 else ""},
+                      "spec_verdict": "an enumerated type differs in size or signedness from the platform compiler's",
+                      "how_to_rerun": "cd /verif && ./check C08 --replay <this file>"},
+                     what=f"enum {{{mn} .. {mx}}}: c2m (size, align, signed) {c} vs gcc {g}", signature=sig)
+    return st
+
+
 # ------------------------------------------------------------------------------------- 3. layout tie
 HDR = "#include <stdio.h>\n#include <string.h>\n#include <stddef.h>\n"
 HEX = ("static void hex(const unsigned char *p, unsigned long n) { unsigned long i; "
@@ -434,6 +506,17 @@ def boundary_decls():
                     wb = unit - w1 - wa + d
                     if 1 <= wb <= unit:
                         add([("b", w1, True, ("sc", bt)), ("b", wa, True, ("sc", bt)), ("b", wb, True, ("sc", bt))])
+    # (c) enumerated types on the int / unsigned int / long boundaries: member, array element, bit-field
+    #     declared type, in a union
+    for en in G.ENUM_NAMES:
+        e = ("sc", en)
+        unit = 8 * G.SC_SIZE[en]
+        add([ch, ("p", e)])
+        add([("p", e), ch])
+        add([ch, ("p", ("arr", 3, e))])
+        add([ch, ("b", 3, True, e), ("b", unit - 4, True, e)])
+        add([("b", unit - 1, True, e), ch])
+        out.append(("agg", True, [("p", e), ("p", ("arr", 5, ("sc", "char")))]))
     return out
 
 
@@ -446,6 +529,15 @@ def main():
             rp = json.load(f)
         cases = [rp.get("input", rp)]
         ck.log("replaying", cases[0])
+    enum_cases = [(c["least"], c["greatest"]) for c in cases if c.get("kind") == "enum"]
+    if not ck.replay:
+        L63 = 2 ** 63
+        enum_cases += list(G.BOUND_ENUMS) + [(0, 0), (-7, 7), (0, L63 - 1), (-L63 + 1, 0), (-1, L63 - 1), (0, 2 ** 64 - 1)]
+        enum_cases += [(-ck.rng.below(2) * ck.rng.below(2 ** 33), ck.rng.below(2 ** 33)) for _ in range(10)]
+    if enum_cases:
+        est = enum_tie(sorted(set(enum_cases)), "corpus/boundaries/seed")
+        ck.stage("enum-tie", **est)
+        ck.cov["enum_tie"] = est
     lay_corpus = [G.from_tokens(c["decl"].split()) for c in cases if c.get("kind") == "layout"]
     only = os.environ.get("C08_ONLY", "")
     if lay_corpus:
@@ -467,7 +559,9 @@ def main():
             layout_process(bd[i:i + 150], f"boundary {i}")
         lay_stats["boundary"] = {"declarations": len(bd), "new_typedefs": lay_stats["typedefs"] - before,
                                  "rule": "ordinary member (7 sizes) x bit-field declared type (6) x width with member bits + width = unit-1/0/+1 "
-                                         "(alone, behind a char, before a char); runs of 2-3 same-size bit-fields ending at unit-1/0/+1"}
+                                         "(alone, behind a char, before a char); runs of 2-3 same-size bit-fields ending at unit-1/0/+1; "
+                                         f"{len(G.ENUM_NAMES)} enumerated types with extreme enumerators on the int/unsigned/long boundaries as "
+                                         "member, array element, bit-field declared type and union member"}
     if not ck.replay and only != "pass" and not QUICK:
         decls, nmenu = small_scope_decls()
         before = lay_stats["typedefs"]
